@@ -92,7 +92,25 @@ def main(argv):
         # the irregular states behind the recorded findings, produced by the real builder (ModuleGraph::build + MemoryLoader)
         try: extra['build_probes'] = harness.run_replay({'world': {'build_probes': True}, 'ops': []}, fast_check=True)
         except Exception as e: extra['build_probes'] = {'error': str(e)[:300]}
+    probe_violations = []
+    if hasattr(mod, 'native_probes'):
+        # build-level regression probes for repaired defects (known_findings.jsonl `fixed:` lines): concrete scenarios run through the real
+        # crate; they decide nothing by themselves, but a scenario whose repaired misbehaviour is back is a reproduced violation
+        out = []
+        for name, payload, expect in mod.native_probes():
+            try:
+                real = harness.run_replay(payload, fast_check=True)['outputs'][0]
+                ok = all(real.get(k) == v for k, v in expect.items())
+                out.append({'probe': name, 'expected': expect, 'real': real, 'ok': ok})
+                if not ok:
+                    os.makedirs(replay_dir, exist_ok=True)
+                    path = os.path.join(replay_dir, f'{prop}_probe_{name}.json'); json.dump(payload, open(path, 'w'), indent=1)
+                    probe_violations.append({'query': 'probe:' + name, 'replay': path, 'detail': {'expected': expect, 'real': real}})
+            except Exception as e:
+                out.append({'probe': name, 'error': str(e)[:300]}); inconclusive.append(f'native probe {name} failed to run: {str(e)[:300]}')
+        extra['build_probes'] = out
     wall = time.time() - t0
+    if probe_violations: recs = recs + [{'cube': 'native-probes', 'queries': [], 'violations': probe_violations, 'known': [], 'inconclusive': [], 'replayed': len(probe_violations), 'solver_s': 0, 'wall_s': 0, 'blocks': 0, 'calls': 0, 'fns': [], 'models': [], 'cube_params': {}}]
     write_evidence(prop, tier, seed, mir, recs, inconclusive, wall, extra, mod)
     violations = [v for r in recs for v in r['violations']]
     for r in recs:
